@@ -49,6 +49,50 @@ def agg(kind, adt, variant, fields):
     return ("agg", kind, adt, variant, tuple(fields))
 
 
+def two_valued_enums(facts):
+    """{adt path: (variant0, variant1)} for crate-local enums with exactly two field-less variants"""
+    cache = getattr(facts, "_flag_enums", None)
+    if cache is None:
+        cache = {}
+        for a in getattr(facts, "adts", {}).values():
+            if a.get("local") and a.get("kind") == "enum" and len(a["variants"]) == 2 and all(not v["fields"] for v in a["variants"]):
+                cache[a["path"]] = tuple(v["name"] for v in a["variants"])
+        try:
+            facts._flag_enums = cache
+        except Exception:
+            pass
+    return cache
+
+
+def option_like_enums(facts):
+    """{adt path: {variant name: "Some" | "None"}} for crate-local enums that are isomorphic to Option: exactly two variants,
+    one without fields and one with exactly one field; PX represents their values as Option values (so `Option<T>` <->
+    `enum { Full(T), Empty }` is not a change of what is analysed).  Enums whose variant names clash with another local
+    enum's are left alone (downcast projections carry the variant name only)."""
+    cache = getattr(facts, "_optlike_enums", None)
+    if cache is None:
+        cache = {}
+        names = {}
+        for a in getattr(facts, "adts", {}).values():
+            if a.get("local") and a.get("kind") == "enum":
+                for v in a["variants"]:
+                    names.setdefault(v["name"], set()).add(a["path"])
+        for a in getattr(facts, "adts", {}).values():
+            if not (a.get("local") and a.get("kind") == "enum" and len(a["variants"]) == 2):
+                continue
+            nf = sorted(len(v["fields"]) for v in a["variants"])
+            if nf != [0, 1]:
+                continue
+            if any(len(names[v["name"]]) > 1 or v["name"] in ("Some", "None", "Ok", "Err", "Ready", "Pending") for v in a["variants"]):
+                continue
+            cache[a["path"]] = {v["name"]: ("Some" if v["fields"] else "None") for v in a["variants"]}
+        try:
+            facts._optlike_enums = cache
+        except Exception:
+            pass
+    return cache
+
+
 def is_agg(t):
     return isinstance(t, tuple) and t and t[0] == "agg"
 
@@ -158,10 +202,18 @@ def sub_terms(a, b):
     return ("binop", "Sub", a, b)
 
 
+BOOL_TERMS = set()      # terms known to be two-valued (0 / 1): bool places, flags, comparison results
+
+
 def mk_binop(op, a, b):
     f = fold_binop(op, a, b)
     if f is not None:
         return f
+    if op in ("Eq", "Ne"):
+        # x == 1 / x != 0 is x, x == 0 / x != 1 is !x for a two-valued x
+        for x, c in ((a, b), (b, a)):
+            if is_const(c) and c[1] in (0, 1) and isinstance(c[1], int) and x in BOOL_TERMS:
+                return x if (op == "Eq") == (c[1] == 1) else ("unop", "Not", x)
     if op in ("Add", "AddUnchecked"):
         if a[0] == "pack" and b == const(1):
             h, p = a[1], a[2]
@@ -521,6 +573,13 @@ class PX:
         self.steps = 0
         self.forks = 0
         self.unsupported = []
+        # crate-local enums with exactly two field-less variants are two-valued flags: their values are represented as the
+        # integers 0 / 1 (declaration order), like bool, so that `bool` <-> `enum { A, B }` is not a change of what is analysed
+        self.flag_enums = two_valued_enums(facts)
+        self.optlike = option_like_enums(facts)
+        self.optlike_names = {}
+        for adt_, m_ in self.optlike.items():
+            self.optlike_names.update(m_)
 
     def info(self, name):
         if name not in self.infos:
@@ -657,7 +716,7 @@ class PX:
             elif k == "field":
                 path = path + (("f", e["name"]),)
             elif k == "downcast":
-                path = path + (("as", e["variant"]),)
+                path = path + (("as", self.optlike_names.get(e["variant"], e["variant"])),)
             elif k == "index":
                 idx = self.read_local(st, fr, e["local"])
                 path = path + (("idx", idx),)
@@ -872,7 +931,7 @@ class PX:
             self.write_place(st, fr, stmt["place"], val)
         elif k == "setdiscr":
             cur = self.read_place(st, fr, stmt["place"])
-            self.write_place(st, fr, stmt["place"], ("setdiscr", cur, stmt["variant"]))
+            self.write_place(st, fr, stmt["place"], ("setdiscr", cur, self.optlike_names.get(stmt["variant"], stmt["variant"])))
 
     def eval_rv(self, st, fr, rv, bb, si, stmt=None):
         k = rv["k"]
@@ -934,6 +993,12 @@ class PX:
         if k == "aggregate":
             ops = [self.eval_op(st, fr, o) for o in rv["ops"]]
             a = rv["agg"]
+            if a == "adt" and rv["adt"] in self.flag_enums:
+                v = const(self.flag_enums[rv["adt"]].index(rv["variant"]))
+                return v
+            if a == "adt" and rv["adt"] in self.optlike:
+                vn = self.optlike[rv["adt"]][rv["variant"]]
+                return agg("adt", "std::option::Option", vn, (("0", ops[0]),) if vn == "Some" else ())
             if a == "adt":
                 names = rv.get("fields") or [str(i) for i in range(len(ops))]
                 if len(names) != len(ops):
@@ -966,13 +1031,20 @@ class PX:
         return ("len", ref)
 
     def discr_of(self, st, v, adt):
+        if adt in self.flag_enums:
+            if v[0] == "setdiscr":
+                return const(self.flag_enums[adt].index(v[2]))
+            if not is_const(v):
+                self.mark_bool(v)
+            return v        # a two-valued flag is its own discriminant
         if v[0] == "setdiscr":
             vn = v[2]
         else:
             vn = st.cons.variant_of(v)
         if vn is not None and adt and adt in self.facts.adts:
+            alias = self.optlike.get(adt, {})
             for var in self.facts.adts[adt]["variants"]:
-                if var["name"] == vn and var["discr"] is not None:
+                if alias.get(var["name"], var["name"]) == vn and var["discr"] is not None:
                     return const(var["discr"])
         return ("discr", v, adt)
 
@@ -993,9 +1065,10 @@ class PX:
             v, adt = d[1], d[2]
             names = {}
             if adt and adt in self.facts.adts:
+                alias = self.optlike.get(adt, {})
                 for var in self.facts.adts[adt]["variants"]:
                     if var["discr"] is not None:
-                        names[var["discr"]] = var["name"]
+                        names[var["discr"]] = alias.get(var["name"], var["name"])
             if adt is None and self.coroutine_entry_only and info.body["kind"] in ("closure",) and \
                     fr.bb == 0 and t["discr"]["k"] in ("copy", "move"):
                 # coroutine state dispatch: analyse the unresumed entry state only
@@ -1073,6 +1146,7 @@ class PX:
 
     def mark_bool(self, t):
         self.__dict__.setdefault("_bool_terms", set()).add(t)
+        BOOL_TERMS.add(t)
 
     # ---------------------------------------------------------------- asserts
     def _assert(self, st, fr, t, bb):
